@@ -3,7 +3,7 @@
 set -e
 P="$1"; shift
 WT=/tmp/wt_seedtest_$$
-git -C /repo worktree add -q --detach "$WT" HEAD
+git -C /repo worktree add -q --detach "$WT" ${BASE:-HEAD}
 trap 'git -C /repo worktree remove --force "$WT" >/dev/null 2>&1' EXIT
 git -C "$WT" apply "$P"
 for c in "$@"; do
